@@ -20,7 +20,8 @@ TECHNIQUE = ('Hypothesis property-based testing: one-vs-many differential of com
 LEVEL_TEXT = ('Generated-input search (320 pool runs quick, 6k thorough) over shapes (n0, n1) in {1,2,3}^2 (size-1 and non-square '
               'included), pairwise different signals, axis in {0, 1, (0,1)}, options None / dict / per-slice 1-D list / 2-D list, '
               'n_jobs in {1, 2, 5, -1}, function and object API (the object is fit twice with different data in a fraction of cases). '
-              'Exact comparison. Sampling, not exhaustive.')
+              'Exact comparison. Sampling, not exhaustive. Plus 24 (quick) / 400 (thorough) runs with spawn / forkserver workers and one call on a '
+              '72 MiB array with a per-signal option grid and four workers.')
 RULE = ('Hypothesis: sigs[i, j] = distinct noisy oscillations of common length; per-slice option sets differ in thresholds (and in '
         'centring / method for axis=(0,1)). Oracle: nested list of n0 lists of n1 tables; axis=(0,1): [i][j] bit-equal to '
         'compute_features(sigs[i, j], options[i][j]); axis=0: row i bit-equal to the reference epoch partition of '
